@@ -268,6 +268,12 @@ class ExprMixin(ExecBase):
                 for f in outs[0][0].pc[npc:]:
                     st.assume(f)
                 return [(st, outs[0][1])]
+            con = C.BY_METHOD.get((cls, attr))
+            if con is not None and getattr(con, "is_property", False):
+                # a @property with real logic (e.g. an assertion) is under contract like a method: reading it is a call
+                if self.spec:
+                    return [(st, self.apply_contract(st, con, o, [], {}, node)[0][1])]
+                return self.apply_contract(st, con, o, [], {}, node)
             return [(st, V(PYOBJ, PyThing("method", recv=o, name=attr)))]
         if ty == PYOBJ:
             th = o.t
